@@ -88,3 +88,72 @@ def ast_of(token, with_lines=False):
     kids = token.children
     return (type(token).__name__, tuple(attrs), content,
             None if kids is None else tuple(ast_of(c, with_lines) for c in kids))
+
+
+# ---- symbolic strings of CONCRETE length, built from symbolic code points -------------------
+# (CrossHair explores far fewer paths when the length of a string is concrete: positions in
+#  concatenated output are then concrete and only the characters themselves are symbolic)
+
+def cp_ok(c):
+    """a Unicode scalar value (no lone surrogate)"""
+    return 0 <= c <= 0x10FFFF and not (0xD800 <= c <= 0xDFFF)
+
+
+_XWS_CODES = sorted(ord(c) for c in XWS)
+
+
+def cp_md(c):
+    """a code point of Σmd: scalar value that is not Python-only white space"""
+    if not cp_ok(c):
+        return False
+    if c == 0x0b or c == 0x0c or c == 0x0d or (0x1c <= c <= 0x1f) or c == 0x85 or c == 0xa0:
+        return False
+    if c == 0x1680 or (0x2000 <= c <= 0x200a) or c == 0x2028 or c == 0x2029 or c == 0x202f or c == 0x205f or c == 0x3000:
+        return False
+    return True
+
+
+def cp_in(c, alphabet):
+    for a in alphabet:
+        if c == ord(a):
+            return True
+    return False
+
+
+def S(k, *cps):
+    """the string of the first k code points"""
+    return ''.join([chr(c) for c in cps[:k]])
+
+
+def all_ok(pred, k, *cps):
+    for c in cps[:k]:
+        if not pred(c):
+            return False
+    return True
+
+
+def all_in(alphabet, k, *cps):
+    for c in cps[:k]:
+        if not cp_in(c, alphabet):
+            return False
+    return True
+
+
+def ks(N, **extra):
+    """one job per exact length 0..N"""
+    return [dict(extra, k=k) for k in range(N + 1)]
+
+
+def fixed(value, name):
+    """partition on an option / first code point: absent parameter = unconstrained"""
+    want = P(name, '*')
+    if want == '*':
+        return True
+    if isinstance(want, str) and not isinstance(value, bool):
+        return value == ord(want)
+    return value == want
+
+
+def by(name, values, base):
+    """base parameter dicts x one job per value of `name`"""
+    return [dict(b, **{name: v}) for b in base for v in values]
